@@ -13,6 +13,7 @@ git -C /repo worktree add -q --detach $W HEAD || exit 2
 trap 'git -C /repo worktree remove --force $W >/dev/null 2>&1' EXIT
 run() { # prop patch
   local P=$1 patch=$2
+  if [ -n "${SELFTEST_SKIP:-}" ] && grep -q "$(basename $(dirname $patch))/$(basename $patch)" "$SELFTEST_SKIP" 2>/dev/null; then return; fi
   git -C $W apply "/verif/$patch" 2>/dev/null || { echo "SKIPPED  $P $patch (does not apply to the current tree)"; return; }
   out=$(HVC_NO_EVIDENCE=1 HVC_NORESCUE=1 ./bin/hvc check $P --dir $W 2>&1); rc=$?
   git -C $W checkout -- .
